@@ -24,6 +24,9 @@ All rights reserved.
 #include <memory> // for make_shared
 #include <cstdio> // for printf
 #include <iostream>
+#ifdef LIBSIMULATOR_VERIF
+#include <boost/asio/executor_work_guard.hpp>
+#endif
 
 using namespace sim::asio;
 
@@ -75,14 +78,17 @@ namespace sim
 				verif::g_step_hook(*this, 1, verif::g_step_hook_user);
 			verif_timers_fired = false;
 			last_executed = 0;
-			while (m_service.poll_one() > 0)
 			{
-				++last_executed;
-				if (verif::g_step_hook)
+				// the hook may post work after the queue ran dry: a work guard keeps
+				// the queue from declaring itself out of work (and stopped) in the
+				// meantime. Unlike a restart() after every hook call this leaves an
+				// explicit stop of the queue in force, exactly as poll() would
+				auto verif_work = boost::asio::make_work_guard(m_service);
+				while (m_service.poll_one() > 0)
 				{
-					verif::g_step_hook(*this, 0, verif::g_step_hook_user);
-					// the hook may have posted work after the queue ran dry
-					m_service.restart();
+					++last_executed;
+					if (verif::g_step_hook)
+						verif::g_step_hook(*this, 0, verif::g_step_hook_user);
 				}
 			}
 #else
